@@ -314,7 +314,9 @@ class PolyhedralTerm(Term):
         Example:
             In the term $-2x + y \\le 6$ understood as equality, isolating the
             variable $x$ yields $x = 0.5 y - 3$, which in PolyhedralTerm
-            notation we express as $0.5 y <= -3$.
+            notation we express as $0.5 y <= 3$ (the convention used by
+            `substitute_variable`: the term stands for the expression on its
+            left-hand side minus its constant).
 
         Args:
             var_to_isolate: The variable to be isolated.
@@ -332,7 +334,7 @@ class PolyhedralTerm(Term):
             variables={
                 k: -v / self.get_coefficient(var_to_isolate) for k, v in self.variables.items() if k != var_to_isolate
             },
-            constant=self.constant / self.get_coefficient(var_to_isolate),
+            constant=-self.constant / self.get_coefficient(var_to_isolate),
         )
 
     @staticmethod
